@@ -671,9 +671,62 @@ def c13_16(ctx):
 
 
 
+def c13_17(ctx):
+    """Tx.initialize_p2tr_multisig evaluated over call histories on one input: a first initialisation, a repeated one (witness still filled), and
+    a re-initialisation for ANOTHER leaf after the witness was emptied (how one input object is reused for the leaves of a tree): after every
+    history in which the witness was empty at the call, the witness is [leaf script, control block] of the leaf given AND the key list the
+    finaliser matches signatures against (tx_in.tap_script) is that same leaf -- the two can never be of different leaves"""
+    from sa.cells import Evaluator, Obj, Raised, Undecided
+    spec = "tx:Tx.initialize_p2tr_multisig"
+    mod, fn = rl.get(ctx, spec)
+    hooks = {("Script", "raw_serialize"): lambda o: o.attrs["raw_"], ("ControlBlock", "serialize"): lambda o: o.attrs["raw_"]}
+
+    def leaf(tag):
+        return (Obj("taproot", "MultiSigTapScript", {"raw_": b"script-" + tag, "points": [tag]}), Obj("taproot", "ControlBlock", {"raw_": b"cb-" + tag}))
+    A, B = leaf(b"A"), leaf(b"B")
+    histories = [("first initialisation", [("init", A)], A), ("the same leaf twice", [("init", A), ("init", A)], A),
+                 ("leaf A, witness emptied, then leaf B", [("init", A), ("clear",), ("init", B)], B),
+                 ("leaf A, witness emptied, leaf B, witness emptied, leaf A again", [("init", A), ("clear",), ("init", B), ("clear",), ("init", A)], A),
+                 ("leaf A, then leaf B while the witness is still filled", [("init", A), ("init", B)], A)]
+    n = 0
+    try:
+        for label, steps, want in histories:
+            n += 1
+            tx_in = Obj("tx", "TxIn", {"witness": Obj("witness", "Witness", {"items": []}), "tap_script": None})
+            me = Obj("tx", "Tx", {"tx_ins": [tx_in]})
+            for st in steps:
+                if st[0] == "clear":
+                    tx_in.attrs["witness"] = Obj("witness", "Witness", {"items": []})
+                else:
+                    try:
+                        Evaluator(ctx.repo, method_hooks=hooks).call(spec, [0, st[1][1], st[1][0]], self_obj=me)
+                    except Raised as x:
+                        return [ctx.bad(spec, "%s: raises %s" % (label, x.name), fn, mod, key="init-history")]
+            items = tx_in.attrs["witness"].attrs.get("items") if isinstance(tx_in.attrs.get("witness"), Obj) else None
+            ts = tx_in.attrs.get("tap_script")
+            if items != [want[0].attrs["raw_"], want[1].attrs["raw_"]] or ts is not want[0]:
+                got_leaf = ts.attrs["points"][0].decode() if isinstance(ts, Obj) else ts
+                return [ctx.bad(spec, "%s: the witness holds %s while the key list for finalising is leaf %s's -- signatures of the leaf being spent are matched against another "
+                                      "leaf's keys and the spend signed by its owners does not verify" % (
+                                          label, [i_.decode() if isinstance(i_, bytes) else i_ for i_ in (items or [])], got_leaf), fn, mod, key="init-history")]
+        # anything but a MultiSigTapScript is refused
+        tx_in = Obj("tx", "TxIn", {"witness": Obj("witness", "Witness", {"items": []}), "tap_script": None})
+        try:
+            Evaluator(ctx.repo, method_hooks=hooks).call(spec, [0, A[1], Obj("taproot", "MuSigTapScript", {"raw_": b"x", "points": []})], self_obj=Obj("tx", "Tx", {"tx_ins": [tx_in]}))
+            return [ctx.bad(spec, "a tap script that is not a MultiSigTapScript is accepted for multisig finalisation", fn, mod, key="init-history")]
+        except Raised:
+            pass
+    except Undecided as u:
+        return [ctx.err(spec, "initialize_p2tr_multisig not evaluable: %s" % u, fn, mod)]
+    ctx.count("cells", n + 1)
+    return [ctx.ok(spec, "%d call histories: witness and key list are always of the same leaf, the one given when the witness was empty" % n, fn, mod, key="init-history")]
+
+
+
 OBLIGATIONS = [
     ("C13.14", "CELLS nonce domain", c13_14),
     ("C13.15", "CELLS tree generators", c13_15),
+    ("C13.17", "CELLS initialise histories", c13_17),
     ("C13.16", "CELLS tapscript witness", c13_16),
     ("C13.13", "SHARED", c13_13),
     ("C13.12", "SET-ORDER", c13_12),
